@@ -150,6 +150,90 @@ def scen_late_registration(ch, params, out):
               lambda: f"{samples}: with datetime types registered {when}: {c1}; registered before the generator existed: {cref}", "simplification_depends_on_registration_time")
 
 
+X_ATOMS = {"int": 1, "float": 1.5, "lit": "auto", "lit2": "manual", "null": None, "absent": None, "intstr": "12"}
+
+
+def _check_registry(out, gen, reg, ctx, tag):
+    from vflib import oracles
+    for m in reg.models:
+        bad = oracles.normal_form_violations(m.type, gen.str_types_registry)
+        out.check(not bad, "not_normal_form", lambda: f"model {m.name}: {bad} ({ctx()})", f"not_normal_form:{tag}")
+    before = oracles.canon_registry(reg)
+    try:
+        for m in reg.models:
+            gen.optimize_type(m)
+    except Exception as e:
+        out.fail("second_pass_raises", f"{type(e).__name__}: {e} ({ctx()})", f"second_pass_raises:{type(e).__name__}")
+        return
+    after = oracles.canon_registry(reg)
+    out.check(before == after, "not_idempotent", lambda: f"{before} -> {after} ({ctx()})", f"not_idempotent:{tag}")
+
+
+def scen_registry_merge(ch, params, out):
+    """Two object lists under sibling keys hold objects with the same keys, so the registry merges their (already simplified)
+    models: the merged field x is the union of two simplified types, in registration order, and must be in normal form again."""
+    import copy
+    from vflib import pipeline
+    names = params.get("atoms", ["int", "float", "lit", "null", "absent"])
+    subsets = [[a for j, a in enumerate(names) if m >> j & 1] for m in range(1, 2 ** len(names))]
+    sa, sb = ch.choose("x_values(a,b)", [(x, y) for x in subsets for y in subsets], shard=True)
+    wrap = ch.choose("wrapping", ["list_of_objects", "object_per_sample"])
+
+    def objs(atoms):
+        res = []
+        for a in atoms:
+            o = {"k1": 1, "k2": "abc", "k3": 2.5}
+            if a != "absent":
+                o["x"] = X_ATOMS[a]
+            res.append(o)
+        return res
+    if wrap == "list_of_objects":
+        samples = [{"a": objs(sa), "b": objs(sb)}]
+    else:
+        n = max(len(sa), len(sb))
+        oa, ob = objs(sa), objs(sb)
+        samples = [{"a": oa[i % len(oa)], "b": ob[i % len(ob)]} for i in range(n)]
+    out.info = {"a": sa, "b": sb, "wrapping": wrap}
+    ctx = lambda: f"x values under a: {sa}, under b: {sb}, {wrap}"
+    try:
+        gen, reg, _ = pipeline.infer({"Root": copy.deepcopy(samples)})
+    except Exception as e:
+        out.fail("simplification_raises_on_input", f"{type(e).__name__}: {e} ({ctx()})", "simplification_raises_on_input")
+        return
+    out.check(len(list(reg.models)) == 2, "harness_expectation", lambda: f"expected the two item models to merge ({ctx()})", "harness_expectation")
+    _check_registry(out, gen, reg, ctx, "registry_merge")
+
+
+def scen_two_rounds(ch, params, out):
+    """One registry used for two rounds of registration + merge: models merged in the second round are members of unions that
+    were simplified in the first (the union must be simplified again: no duplicate members, no single-member union)."""
+    from json_to_models.generator import MetadataGenerator
+    from json_to_models.registry import ModelFieldsNumberMatch, ModelRegistry
+    U = ["k0", "k1", "k2", "k3", "k4"][:params.get("keys", 4)]
+    subsets = [[k for j, k in enumerate(U) if m >> j & 1] for m in range(1, 2 ** len(U))]
+    ka, kx = ch.choose("payload_keys(first,second)", [(a, b) for a in subsets for b in subsets], shard=True)
+    kn = ch.choose("third_object_keys", subsets)
+    where = ch.choose("third_object_position", ["own_root", "same_field_of_a_similar_root"])
+    calls = ch.choose("merge_calls", ["after_each_round", "once_at_the_end"])
+    gen = MetadataGenerator()
+    reg = ModelRegistry(ModelFieldsNumberMatch(2))
+    out.info = {"first": ka, "second": kx, "third": kn, "where": where, "calls": calls}
+    ctx = lambda: f"payload keys {ka} / {kx}, third object {kn} as {where}, merge {calls}"
+    try:
+        reg.process_meta_data(gen.generate({"payload": {k: 1 for k in ka}, "r1": 1, "r2": 2}), model_name="Event")
+        reg.process_meta_data(gen.generate({"payload": {k: 1 for k in kx}, "r1": 1, "r2": 2}), model_name="Alert")
+        if calls == "after_each_round":
+            reg.merge_models(generator=gen)
+        third = {"payload": {k: 1 for k in kn}, "r1": 1, "r2": 2} if where != "own_root" else {"other": {k: 1 for k in kn}, "z": 1}
+        reg.process_meta_data(gen.generate(third), model_name="Third")
+        reg.merge_models(generator=gen)
+        reg.generate_names()
+    except Exception as e:
+        out.fail("simplification_raises_on_input", f"{type(e).__name__}: {e} ({ctx()})", "simplification_raises_on_input")
+        return
+    _check_registry(out, gen, reg, ctx, "two_rounds")
+
+
 def parts(tier):
     if tier == "quick":
         return [
@@ -161,8 +245,13 @@ def parts(tier):
             CH("inputs_two_nested", "vflib.props.c08:scen_inputs", {"kinds": "KINDS_NEST", "samples": 1, "keys": ["a", "b"],
                                                                      "symbolic_leaves": False, "merge": ["default", "p50n2"]},
                shards=16, timeout=170, path_timeout=30),
+            CH("registry_merge_of_simplified_fields", "vflib.props.c08:scen_registry_merge", {}, shards=16, timeout=170, path_timeout=30),
+            CH("two_rounds_on_one_registry", "vflib.props.c08:scen_two_rounds", {"keys": 4}, shards=16, timeout=170, path_timeout=30),
         ]
     return [
+        CH("registry_merge_of_simplified_fields", "vflib.props.c08:scen_registry_merge", {"atoms": ["int", "float", "lit", "lit2", "null", "absent", "intstr"]},
+           shards=16, timeout=400, path_timeout=30),
+        CH("two_rounds_on_one_registry", "vflib.props.c08:scen_two_rounds", {"keys": 5}, shards=16, timeout=400, path_timeout=30),
         CH("late_registration", "vflib.props.c08:scen_late_registration", {}, shards=16, timeout=400, path_timeout=30),
         CH("universe40", "vflib.props.c08:scen_universe", {"universe": "full", "max": 3}, shards=16, timeout=400, path_timeout=30),
         CH("inputs", "vflib.props.c08:scen_inputs", {"kinds": "KINDS_FULL", "samples": 2, "keys": ["a"], "symbolic_leaves": False,
